@@ -88,7 +88,7 @@ func p4scenario(v int) []p4step {
 	}
 	switch v % 3 {
 	case 0:
-		return []p4step{est("A", 1, 0), est("B", 2, 0), modFar("A", 0x0C, true), modFar("A", 2, true), modQer("B"), del("A"), est("C", 3, 0), del("B"), del("C"), est("D", 4, 1), del("D")}
+		return []p4step{est("A", 1, 0), est("B", 2, 0), modFar("A", 0x0C, true), modFar("A", 2, true), modQer("B"), del("B"), est("C", 3, 0), modFar("C", 2, true), del("A"), del("C"), est("D", 4, 1), del("D")}
 	case 1:
 		return []p4step{est("A", 1, 1), est("B", 2, 2), modQer("A"), del("A"), est("C", 3, 1), est("D", 4, 0), del("B"), del("C"), del("D")}
 	default:
